@@ -428,7 +428,9 @@ def _all_pairs_site(check: Check, repo: Repo, rule: str, fname: str, callee: str
                 idx = outer.target.id
                 lens = [x for x in ast.walk(o_it) if isinstance(x, ast.Call) and last_attr(x) == "len"]
                 seq = unparse(lens[0].args[0]) if lens else None
-            i_it = inner.iter
+            from sa.tables import inline_locals
+
+            i_it = inline_locals(inner.iter, fn, keep={idx or "", seq or ""})  # `rest = xs[i + 1:]` ... `for y in rest`
             if idx and seq:
                 if isinstance(i_it, ast.Subscript) and isinstance(i_it.slice, ast.Slice) and unparse(i_it.value) == seq \
                         and i_it.slice.lower is not None and unparse(i_it.slice.lower).replace(" ", "") in (f"{idx}+1", f"1+{idx}") \
